@@ -404,6 +404,10 @@ func (tg *target) verdict(b []byte, o outcome) error {
 	}
 	if limit := uint64(allocA0 + allocA1*len(b)); o.alloc > limit {
 		key := "alloc:" + tg.name
+		if cls := aliasClass(tg.name, b); cls != "" {
+			// offset aliasing (alias_test.go): a recorded finding, matched by class
+			key = "alloc-aliased:" + cls
+		}
 		if stats.Known("C02", key) {
 			return nil
 		}
@@ -427,6 +431,10 @@ func (tg *target) verdict(b []byte, o outcome) error {
 		}
 		if d > cpuLimit(len(b)) {
 			key := "cpu:" + tg.name
+			if cls := aliasClass(tg.name, b); cls != "" {
+				// the same recorded finding: work, like memory, is spent once per reference
+				key = "alloc-aliased:" + cls
+			}
 			if stats.Known("C02", key) {
 				return nil
 			}
@@ -434,6 +442,11 @@ func (tg *target) verdict(b []byte, o outcome) error {
 		}
 	} else if o.sweepAlloc > limit {
 		key := "alloc-accessors:" + tg.name
+		if cls := aliasClass(tg.name, b); cls != "" {
+			// (re-encoding a value that holds one decoded copy per reference
+			// allocates in the same proportion)
+			key = "alloc-aliased:" + cls
+		}
 		if stats.Known("C02", key) {
 			return nil
 		}
